@@ -28,13 +28,17 @@
                            | LkNone => wire_from_ip bs end) = VOk (expected c (len p))
      C10_consistent for the TCP / ICMPv4 / ICMPv6 checksums (`verifies (pseudo ++ drop off_transport bs)`)
      and for the ether type / next-header bytes of the link, VLAN and extension headers.
-   Proved parts of parse-back: C10_parse_back_ipv4_header_partial, C10_parse_back_tcp_partial. *)
+   Proved parts of parse-back: C10_parse_back_ipv4_header_partial, C10_parse_back_tcp_partial.
+   Completion round: C10_parse_back is now proved in full (all families, extension headers
+   included, view expected_x); nothing of the three items above is left to the oracle alone. *)
 From EP Require Import Base.Bytes Checksum.Spec Checksum.Model.
 From EP Require Roundtrip.Common Roundtrip.Tcp Roundtrip.Ipv4 ExtChain.Spec ExtChain.Model BitFields.Model.
 From EP Require Import Parse.Types Parse.View Parse.WireSpec.
 From EP Require Import Builder.Model Builder.Spec Builder.Proofs Builder.ProofsCk.
 From EP Require Checksum.ProtoTypes Checksum.ProtoSpec.
-From EP Require Import Builder.SpecX Builder.ProofsTr Builder.ProofsNx.
+From EP Require Import Builder.SpecX Builder.ProofsTr Builder.ProofsNx Builder.ProofsWire Builder.ProofsPb
+  Builder.ProofsVal.
+From EP Require ExtChain.View.
 Local Open Scope N_scope.
 
 (* ---- outcome: encodable configurations give exactly size() bytes, the others the documented error *)
@@ -228,11 +232,105 @@ Theorem C10_next_protocol_fields : forall e c p bs, cfg_wf c = true -> build e c
 Proof. exact next_protocol_fields. Qed.
 Print Assumptions C10_next_protocol_fields.
 
+(* ---- parse-back: the wire reference decoder of C03 accepts the built bytes ----
+   For EVERY well-formed configuration -- link none / Ethernet II / Linux SLL x 0-2 VLAN tags x
+   IPv4 (any options, authentication header) / IPv6 (all 48 extension shapes) / ARP x
+   UDP / TCP (+options) / ICMPv4 / ICMPv6 / raw -- whose payload the message type admits,
+   the entry point matching the link layer (wire_entry: wire_ethernet / wire_linux_sll /
+   wire_from_ip) returns VOk of exactly the configured layers at their computed offsets,
+   the payload window being exactly the supplied payload (expected_x, Builder/SpecX.v).
+   payload_admitted (Builder/Spec.v) excludes precisely:
+     - write(ip_number, ..) with ip_number in {1, 6, 17, 58, 51} (the decoder would read a
+       transport / authentication header out of the raw payload) and, over IPv6, in
+       {0, 43, 44, 60} (an extension header number: chain not determined by the configuration);
+     - ICMPv4 type 13 / 14 code 0 (timestamp messages, exactly 20 bytes) with a payload
+       other than 12 bytes, unless the IPv4 header fragments the payload.
+   Fragmenting configurations (IPv4 more_fragments / fragment_offset != 0, IPv6 fragment
+   header with M or an offset) are INCLUDED: the decoder stops before the transport layer,
+   expected_x lists link, VLAN, the IP header, the extension headers and the IP payload
+   window (= transport header ++ payload) with vip_frag = true and no transport layer. *)
+Theorem C10_parse_back : forall e c p bs,
+  cfg_wf c = true -> payload_admitted c (len p) = true -> build e c p = BOk bs ->
+  wire_entry c bs = VOk (expected_x c (len p)).
+Proof. exact parse_back. Qed.
+Print Assumptions C10_parse_back.
+
+(* the statement announced in the first round (view `expected` of Builder/Spec.v, no
+   extension headers) is the special case *)
+Theorem C10_parse_back_no_exts : forall e c p bs,
+  cfg_wf c = true -> parse_pre c (len p) = true -> build e c p = BOk bs ->
+  (match c_link c with
+   | LkEthernet2 _ _ => wire_ethernet bs
+   | LkLinuxSll _ _ _ => wire_linux_sll bs
+   | LkNone => wire_from_ip bs
+   end) = VOk (expected c (len p)).
+Proof. exact parse_back_no_exts. Qed.
+Print Assumptions C10_parse_back_no_exts.
+
+(* a packet built without link layer, handed to the ether-type entry point *)
+Theorem C10_parse_back_ether_type : forall e c p bs,
+  cfg_wf c = true -> payload_admitted c (len p) = true -> build e c p = BOk bs -> c_link c = LkNone ->
+  let x := expected_x c (len p) in
+  wire_ether_type bs (net_ether_type (c_net c))
+  = VOk (mkVPacket (Some (VEtherPayload (mkVEp (net_ether_type (c_net c)) LsSlice (0, len bs))))
+                   (v_exts x) (v_net x) (v_transport x)).
+Proof. exact parse_back_ether_type. Qed.
+Print Assumptions C10_parse_back_ether_type.
+
+(* ---- the values behind the windows of C10_parse_back ----
+   link and VLAN headers are the encodings of the configured structs with the ether types
+   set (link_bytes / vlan_bytes of Builder/Model.v: Ethernet2Header / LinuxSllHeader /
+   SingleVlanHeader::to_bytes, the last one decoded back by C15_vlan_roundtrip); the
+   extension area is the RFC 8200 / 4302 wire format of the configured headers in RFC
+   order (C12 rfc_order_bytes) and the crate's Ipv6Extensions / Ipv4Extensions::from_slice
+   (C12 models) returns the configured headers, the transport number and no rest; an ARP
+   packet is ArpPacket::to_bytes; the bytes from off_payload on are exactly the payload.
+   (IPv4 / IPv6 / transport headers: C10_consistent_ipv4, C10_consistent_ipv6,
+   C10_parse_back_ipv4_header_partial, C10_transport_rfc_layout, C10_parse_back_tcp_partial.) *)
+Theorem C10_layers_as_configured : forall e c p bs, cfg_wf c = true -> build e c p = BOk bs ->
+  let n := tr_ip_number (c_transport c) in
+  take (link_len c) bs = link_bytes c /\
+  take (vlan_len c) (drop (off_vlan c) bs) = vlan_bytes c /\
+  match c_net c with
+  | NtIpv4 h x =>
+      let s := ExtChain.Model.set_next_headers4 x n in
+      take (ExtChain.Model.header_len4 x) (drop (off_exts c) bs) = ExtChain.View.rfc_order_bytes4 (fst s) /\
+      (n <> 51 ->
+       ExtChain.Model.from_slice4 (snd s) (take (ExtChain.Model.header_len4 x) (drop (off_exts c) bs))
+       = ExtChain.Model.Ok (fst s, n, []))
+  | NtIpv6 h x =>
+      chain_pre c = true ->
+      let s := ExtChain.Model.set_next_headers x n in
+      take (ExtChain.Model.header_len x) (drop (off_exts c) bs) = ExtChain.View.rfc_order_bytes (fst s) /\
+      ExtChain.Model.from_slice (snd s) (take (ExtChain.Model.header_len x) (drop (off_exts c) bs))
+      = ExtChain.Model.Ok (fst s, n, [])
+  | NtArp a => take (arp_packet_len a) (drop (off_net c) bs) = arp_to_bytes a
+  end /\
+  drop (off_payload c) bs = p /\ off_payload c + len p = len bs.
+Proof. exact layers_as_configured. Qed.
+Print Assumptions C10_layers_as_configured.
+
 (* statement pinning *)
 Check (C10_size : forall e c p bs, cfg_wf c = true -> build e c p = BOk bs -> len bs = final_size c (len p)).
 Check (C10_never_panics : forall e c p s, cfg_wf c = true -> build e c p <> BPanic s).
 Check (C10_errors : forall e c p er, cfg_wf c = true ->
   (build e c p = BErr er <-> spec_outcome c (len p) = OErr er)).
+
+Check (C10_parse_back : forall e c p bs,
+  cfg_wf c = true -> payload_admitted c (len p) = true -> build e c p = BOk bs ->
+  wire_entry c bs = VOk (expected_x c (len p))).
+Check (C10_checksums_verify : forall e c p bs,
+  cfg_wf c = true -> bytes_ok p -> build e c p = BOk bs ->
+  let seg := drop (off_transport c) bs in
+  let k := ck_field_off (c_transport c) in
+  match ck_pseudo c (len seg) with
+  | None => True
+  | Some ph =>
+      len seg = tr_header_len (c_transport c) + len p /\ off_transport c + len seg = len bs /\
+      k + 2 <= tr_header_len (c_transport c) /\
+      verifies (ph ++ seg) /\
+      W bs (off_transport c + k) = ck_value (c_transport c) (rfc1071 (ph ++ zero16_at k seg))
+  end).
 
 (* ---- non-vacuity: the crate's documentation example (ethernet2 / ipv4 / udp, 8 byte payload),
    the same with a VLAN tag and ICMPv6 (error), and a payload one byte too long *)
@@ -297,6 +395,52 @@ Example C10_ex_tcp6 :
     ck_pseudo ex_cfg_tcp6 27 = Some (pseudo6 (BitFields.Model.v6_source ex_ip6) (BitFields.Model.v6_destination ex_ip6) 27 6) /\
     verifies (pseudo6 (BitFields.Model.v6_source ex_ip6) (BitFields.Model.v6_destination ex_ip6) 27 6 ++ drop 78 bs) /\
     W bs 12 = 34984 /\ W bs 16 = 33024 /\ W bs 20 = 34525 /\ B bs 28 = 0 /\ B bs 62 = 44 /\ B bs 70 = 6.
+Proof.
+  split; [vm_compute; reflexivity|]. split; [vm_compute; reflexivity|]. split; [vm_compute; reflexivity|].
+  eexists. split; [vm_compute; reflexivity|]. vm_compute. repeat split; reflexivity.
+Qed.
+
+(* parse-back is not vacuous: the TCP/IPv6 example above is admitted, builds, and the
+   decoder returns the expected view (two VLAN tags, hop-by-hop + fragment header, TCP) *)
+Example C10_ex_parse_back_x :
+  payload_admitted ex_cfg_tcp6 3 = true /\
+  exists bs, build LE ex_cfg_tcp6 [1; 2; 3] = BOk bs /\ wire_ethernet bs = VOk (expected_x ex_cfg_tcp6 3) /\
+    v_transport (expected_x ex_cfg_tcp6 3) = Some (VTcp 24 (78, 27)) /\
+    v_net (expected_x ex_cfg_tcp6 3)
+    = Some (VIpv6 (22, 40) (Some 0) false (62, 16) (mkVIp 6 false LsIpv6HeaderPayloadLen (78, 27))).
+Proof.
+  split; [vm_compute; reflexivity|]. eexists. split; [vm_compute; reflexivity|]. vm_compute.
+  repeat split; reflexivity.
+Qed.
+
+(* ICMPv6 echo request over IPv6 behind a Linux cooked capture header: checksum with the
+   RFC 8200 pseudo header (next header 58, upper-layer length = whole ICMPv6 message) *)
+Definition ex_cfg_icmp6_sll : cfg :=
+  mkCfg (LkLinuxSll 4 6 [1; 2; 3; 4; 5; 6; 0; 0]) VlNone (NtIpv6 ex_ip6 ExtChain.Model.exts6_default)
+        (TrIcmpv6 (IcEchoRequest 4660 1)).
+Example C10_ex_icmp6 :
+  cfg_wf ex_cfg_icmp6_sll = true /\ payload_admitted ex_cfg_icmp6_sll 3 = true /\
+  exists bs, build LE ex_cfg_icmp6_sll [104; 105; 33] = BOk bs /\
+    ck_pseudo ex_cfg_icmp6_sll 11
+      = Some (pseudo6 (BitFields.Model.v6_source ex_ip6) (BitFields.Model.v6_destination ex_ip6) 11 58) /\
+    verifies (pseudo6 (BitFields.Model.v6_source ex_ip6) (BitFields.Model.v6_destination ex_ip6) 11 58 ++ drop 56 bs) /\
+    W bs 58 = 46807 /\ W bs 14 = 34525 /\ wire_linux_sll bs = VOk (expected_x ex_cfg_icmp6_sll 3).
+Proof.
+  split; [vm_compute; reflexivity|]. split; [vm_compute; reflexivity|].
+  eexists. split; [vm_compute; reflexivity|]. vm_compute. repeat split; reflexivity.
+Qed.
+
+(* no link layer: the same packet through wire_from_ip and through wire_ether_type *)
+Definition ex_cfg_nolink : cfg := mkCfg LkNone VlNone (c_net ex_cfg) (TrIcmpv4 (IcUnknown 13 0 [0; 1; 0; 2])).
+Example C10_ex_nolink :
+  cfg_wf ex_cfg_nolink = true /\ payload_admitted ex_cfg_nolink 12 = true /\
+  payload_admitted ex_cfg_nolink 11 = false /\
+  exists bs, build LE ex_cfg_nolink (repeat 7 12) = BOk bs /\
+    wire_from_ip bs = VOk (expected_x ex_cfg_nolink 12) /\
+    wire_ether_type bs 2048
+    = VOk (mkVPacket (Some (VEtherPayload (mkVEp 2048 LsSlice (0, 40)))) []
+                     (v_net (expected_x ex_cfg_nolink 12)) (Some (VIcmpv4 (20, 20)))) /\
+    verifies (drop 20 bs).
 Proof.
   split; [vm_compute; reflexivity|]. split; [vm_compute; reflexivity|]. split; [vm_compute; reflexivity|].
   eexists. split; [vm_compute; reflexivity|]. vm_compute. repeat split; reflexivity.
